@@ -1,14 +1,24 @@
 (* family "dectot" (C06): the validator model (both presentations) and the Unmarshal error class.
      val <schema id> <limit hex> <xbytes>        | <status hex: 2 invalid 3 valid> <initialized 0/1>
      dec <schema id> <f|s> <limit hex> <xbytes>  | ok | e1 parse | e2 depth | e3 utf8 | e4 required
-   Schemas are the ones stored by family msg (`schema` lines). *)
+   Schemas are the ones stored by family msg (`schema` lines).
+   Every schema a `val` line uses must satisfy [dt_schema_wfb] (no dangling type index): that is the
+   hypothesis of C06_validate_stack_eq_recursive / C06_decode_total; a schema that does not fails
+   the case ("schema-not-wf"). *)
 open Util
+
+let wf_cache : (string, bool) Hashtbl.t = Hashtbl.create 16
+let schema_wf id s =
+  match Hashtbl.find_opt wf_cache id with
+  | Some b -> b
+  | None -> let b = DecTotalP.dt_schema_wfb s in Hashtbl.add wf_cache id b; b
 
 let handle op args =
   match op, args with
   | "val", [id; limit; b] ->
     let s = Fam_msg.schema_of_id id in
     let lim = Fam_msg.nat_cached (int_of_n (n_of_hex limit)) and bs = bytes_of_hex b in
+    if not (schema_wf id s) then ["schema-not-wf"] else
     (* (B) the recursive-descent validator the theorems are about, (A) the explicit-stack machine *)
     let ((st, i), _quirk) = ValidateMsgModel.vm_validate s lim (Fam_msg.nat_cached 0) bs in
     let (st2, i2) = ValidateMsgModel.vm_validate_stack s lim (Fam_msg.nat_cached 0) bs in
